@@ -174,7 +174,7 @@ def include_graph(rng, idx):
 def make_inputs(chk, tier):
     rng = chk.rng
     corpus = corpus_files()
-    n = 80000 if tier == "quick" else 2400000
+    n = 80000 if tier == "quick" else 1000000
     cases = []
     for name, text in corpus:
         cases.append({"kind": "corpus", "files": {"root.fea": text}, "glyphs": GLYPHS if rng.random() < 0.5 else None, "origin": name})
